@@ -23,6 +23,11 @@ CLAIMED["C02"] = dict(
    text="Exploration: 8k (quick) / 120k (thorough) generated programs combining function signatures (positional, nested-unpack with ellipsis, defaults reading outer variables, variadic, ignored), call forms (too few .. too many arguments, packed runs, empty packs, piped chains, instance calls with self), recursion, capture-by-copy with reassignment and shared containers, closure factories, nested closures and generators consumed by for / unpacking / to_tuple / pause-and-resume / packed forwarding; each program also runs inside a function and a nested closure; stdout (bodies print their bound arguments and every yield/resume), result and Ok/Err class must equal the reference interpreter's. Sampled; no absence proof.",
    note="Trusts M (binding rules transcribed from the guide's 'Functions' and 'Generators' chapters; generators are coroutines with strict hand-off). Known shape F27 excluded by construction; error texts not compared.",
    design="§4 C02")
+CLAIMED["C03"] = dict(
+   technique="differential property-based testing: proptest-generated match shapes x bounded-exhaustive subject universe against an independent reference interpreter; generated unpacking programs",
+   text="Exploration: 12k (quick) / 120k (thorough) match shapes (1-5 arms, or-alternatives, patterns nested <= 3 with ellipsis / rest capture / typed ids / map patterns / guards / else, 1-2 subjects) are each run against a subject universe of scalars, ranges, maps and ALL lists and tuples of size <= 2 over six element kinds plus a seeded sample (thorough: all) of size 3; plus 12k / 120k unpacking programs (multi-assignment with holes from lists, tuples, ranges, strings, generators, scalars; for with several arguments). Arm selection, bindings, single evaluation of the subject and fall-through to null are compared with the reference interpreter per (shape, subject).",
+   note="Trusts M's matching rules (transcribed from the guide's match chapter). Sequence patterns against strings/ranges/maps, named rest of lists, Range x Indexable and names bound in only some alternatives are not judged. Known shapes F26, C03-size-null, C03-map-null excluded by construction.",
+   design="§4 C03")
 NOT_YET = {}
 props=[json.loads(l) for l in open('/verif/properties.jsonl')]
 checks=[]; na=[]
